@@ -7,7 +7,7 @@ from .. import gen_fgg, oracle_fgg as of, cmp, admit
 
 ID = 'C02'
 RULE = ("G1 recursive grammar specs (self-loops, mutual recursion, linear/non-linear, weight-one cycles, SCC feeding "
-        "SCC; weights {0,.1,.25,.5,1}) x {Real,Log,Viterbi,Bool} x {fixed-point,newton,linear} x tol in "
+        "SCC, optionally under a diamond S0 -> D0 E0 over the old start; weights {0,.1,.25,.5,1}; plus a closed-form near-critical family S(v) -> S(v) a(v) | b(v) with a = 1 - 2^-k, k <= 50) x {Real,Log,Viterbi,Bool} x {fixed-point,newton,linear} x tol in "
         "{1e-3,1e-6,1e-10,0} x kmax in {1,2,3,30,1000,10000}, float64. Bool/Viterbi: exact Kleene reference on the spec "
         "as drawn; Real/Log: spec deterministically halved until an independent Newton+autograd reference finds a "
         "finite least fixed point with Jacobian inf-norm rho<=0.9, then |result-x*| <= tol/(1-rho)+slack is required "
@@ -18,7 +18,7 @@ ASSUMPTIONS = ["Real/Log judged only on specs with a finite least fixed point an
                "Viterbi judged on log-weights <= 0 (finite attained maximum)", "kmax >= 1",
                "slack = 1e-9*(1+max|x*|); Log bound converted to the real domain: max over all nonterminals of x* times (e^tol-1)/(1-rho)",
                "a warning whose message contains 'maximum iteration' is the library's non-convergence warning"]
-ESSENTIAL_LABELS = ['self-loop', 'mutual-recursion', 'linear-recursion', 'nonlinear-recursion', 'weight-one-cycle']
+ESSENTIAL_LABELS = ['geometric', 'near-critical', 'diamond', 'self-loop', 'mutual-recursion', 'linear-recursion', 'nonlinear-recursion', 'weight-one-cycle']
 KINDS = ['real', 'log', 'viterbi', 'bool']
 METHODS = ['fixed-point', 'newton', 'linear']
 TOLS = [1e-3, 1e-6, 1e-10, 0]      # tol=0: iterate until nothing changes (MultiTensor.allclose has an exact branch); bound = slack
@@ -29,11 +29,32 @@ def budget(tier):
     return {'examples': 560 if tier == 'quick' else 9000, 'shrink_calls': 200}
 
 
+GEO_K = [1, 2, 3, 10, 20, 30, 40, 50]
+
+
+@st.composite
+def geometric_cases(draw, tier):
+    """Near-critical family with a closed form: S(v) -> S(v) a(v) | b(v), a(v) = 1 - f 2^-k, so that
+    Z(v) = b(v) / (1 - a(v)) in closed form (1 - a is exact in floating point for a >= 1/2).  Reaches cycle weights within 1e-15 of one, which the general admission rule (rho <= 0.9) excludes."""
+    n = draw(st.sampled_from([0, 1, 2, 3]))
+    m = max(1, n)
+    ks = [draw(st.sampled_from(GEO_K)) for _ in range(m)]
+    bs = [draw(st.sampled_from([0.25, 0.5, 1.0, 3.0, 0.0])) for _ in range(m)]
+    configs = [[draw(st.sampled_from(KINDS)), draw(st.sampled_from(['linear', 'linear', 'newton', 'fixed-point'])), draw(st.sampled_from(TOLS)),
+                draw(st.sampled_from([30, 1000]))] for _ in range(6)]
+    fs = [draw(st.sampled_from([1.0, 1.1, 1.37, 0.7, 1.9])) for _ in range(m)]      # non-dyadic cycle weights: exp(log a) != a in general
+    return {'kind': 'geometric', 'n': n, 'ks': ks, 'fs': fs, 'bs': bs, 'configs': configs, 'order': draw(st.booleans())}
+
+
 @st.composite
 def cases(draw, tier):
+    if draw(st.integers(0, 9)) == 0:
+        return draw(geometric_cases(tier))
     base = gen_fgg.specs(recursive=True, weights=(0.0, 0.1, 0.25, 0.5, 0.5, 1.0, 1.0), max_nts=3,
                          max_dom=2 if tier == 'quick' else 3, max_edges=3, max_nodes=5)
     spec = draw(gen_fgg.patterned(base, weights=(0.0, 0.1, 0.25, 0.5, 1.0)) if draw(st.integers(0, 3)) == 0 else base)
+    if draw(st.integers(0, 5)) == 0:
+        gen_fgg.inject_diamond(draw, spec)       # sibling nonterminals over a shared finished SCC (cross edges in the dependency graph)
     n = 8 if tier == 'quick' else 14
     configs = [[draw(st.sampled_from(KINDS)), draw(st.sampled_from(METHODS)), draw(st.sampled_from(TOLS)),
                 draw(st.sampled_from(KMAXS))] for _ in range(n)]
@@ -83,8 +104,102 @@ def run_lib(ctx, fgg, **opts):
     return z, warned
 
 
+def geometric_a(case):
+    # a in [0.05, 1): for a >= 0.5 the subtraction 1 - a below is exact (Sterbenz), so b / (1 - a) is the closed form to 1 ulp
+    return [1.0 - 2.0 ** -k * f for k, f in zip(case['ks'], case.get('fs') or [1.0] * len(case['ks']))]
+
+
+def geometric_spec(case):
+    n = case['n']
+    ty = ['N'] if n else []
+    a = geometric_a(case)
+    b = list(case['bs'])
+    rules = [{'lhs': 'S', 'nodes': list(ty), 'ext': list(range(len(ty))), 'edges': [{'label': 'S', 'att': list(range(len(ty)))}, {'label': 'a', 'att': list(range(len(ty)))}]},
+             {'lhs': 'S', 'nodes': list(ty), 'ext': list(range(len(ty))), 'edges': [{'label': 'b', 'att': list(range(len(ty)))}]}]
+    if case.get('order'): rules.reverse()
+    return {'node_labels': {'N': n} if n else {}, 'terminals': {'a': {'type': ty, 'weights': a if n else a[0]}, 'b': {'type': ty, 'weights': b if n else b[0]}},
+            'nonterminals': {'S': ty}, 'start': 'S', 'rules': rules}
+
+
+def check_geometric(case, ctx):
+    import torch, fggs
+    spec = geometric_spec(case)
+    ctx.label('geometric', 'near-critical' if max(case['ks']) >= 20 else None, 'self-loop', 'linear-recursion')
+    ks, bs = case['ks'], case['bs']
+    avals = geometric_a(case)
+    real = np.array([b / (1.0 - a_) for b, a_ in zip(bs, avals)])     # closed form, correctly rounded up to 1 ulp
+    rho = max(avals)
+    seen = set()
+    for kind, method, tol, kmax in case['configs']:
+        if (kind, method, tol, kmax) in seen: continue
+        seen.add((kind, method, tol, kmax))
+        dtype = torch.float64
+        hook = None
+        if kind == 'log':
+            # log-weights given directly in the log domain (x = -f 2^-k is not the logarithm of a float, so exp(x) rounds:
+            # the cancellation in 1 - exp(x) is real); the closed form below is evaluated on the values the library holds
+            def hook(name, w, case=case):
+                if name != 'a': return w
+                xs = [-f * 2.0 ** -k for k, f in zip(case['ks'], case.get('fs') or [1.0] * len(case['ks']))]
+                return torch.tensor(xs if case['n'] else xs[0], dtype=torch.float64).reshape(w.shape)
+        fgg, info = gen_fgg.build(spec, kind, dtype, weight_hook=hook)
+        sr = gen_fgg.make_semiring(kind, dtype)
+        cfg = f'geometric/{kind}/{method}/tol={tol}/kmax={kmax}/k={ks}'
+        ctx.label('cfg:' + kind + '/' + method)
+        try:
+            z, warned = ctx.call('sum_product', run_lib, ctx, fgg, method=method, semiring=sr, tol=tol, kmax=kmax)
+        except Exception:
+            ctx.violations[-1].detail.update(config=cfg, sr=kind, method=method); continue
+        if warned: ctx.label('warned')
+        got = np.asarray(cmp.to_numpy(z)).reshape(-1)
+        det = dict(config=cfg, sr=kind, method=method, warned=warned)
+        if not ctx.require(got.shape == real.shape, 'wrong-shape', f'[{cfg}] {got.shape}', **det): continue
+        if kind == 'bool':
+            want = real > 0
+            ctx.require(not np.any(got & ~want) if warned else np.array_equal(got, want), 'bool-wrong', f'[{cfg}] got {got.tolist()} expected {want.tolist()}', **det)
+            continue
+        if np.isnan(got).any():
+            ctx.violation('nan', f'[{cfg}] {got.tolist()}', **det); continue
+        if kind == 'viterbi':
+            with np.errstate(divide='ignore'):
+                want = np.log(np.asarray(bs, dtype=float))              # a < 1: the best derivation uses the cycle zero times
+            ok = np.all(got <= want + 1e-9) if warned else np.allclose(got, want, rtol=0, atol=1e-9, equal_nan=False) or np.array_equal(got, want)
+            ctx.require(bool(ok), 'viterbi-wrong', f'[{cfg}] got {got.tolist()} expected {want.tolist()}', **det)
+            continue
+        if kind == 'log':
+            # the closed form on the log-weights the library actually holds: log b - log(-expm1(x))
+            xa = np.asarray(cmp.to_numpy(fgg.factors['a'].weights)).reshape(-1)
+            xb = np.asarray(cmp.to_numpy(fgg.factors['b'].weights)).reshape(-1)
+            want = np.array([(-math.inf if b_ == -math.inf else b_ - math.log(-math.expm1(a_))) for a_, b_ in zip(xa, xb)])
+            if method == 'linear':
+                fin = np.isfinite(want)
+                ok = np.array_equal(np.isfinite(got), fin) and np.all(np.abs(got[fin] - want[fin]) <= 1e-10 * (1 + np.abs(want[fin])))
+                ctx.require(bool(ok), 'lfp-error-exceeds-bound', f'[{cfg}] linear: got {got.tolist()} closed form {want.tolist()}', **det)
+                if not warned and fin.any(): ctx.nontrivial = True
+                continue
+            with np.errstate(over='ignore'):
+                greal = np.exp(got); wreal = np.exp(want)
+            bound = wreal.max(initial=0.0) * math.expm1(tol) / (1 - rho) + 1e-9 * (1 + wreal.max(initial=0.0))
+        else:
+            greal, wreal = got, real
+            if method == 'linear':
+                ok = np.all(np.abs(greal - wreal) <= 1e-12 * (1 + np.abs(wreal)))
+                ctx.require(bool(ok), 'lfp-error-exceeds-bound', f'[{cfg}] linear: got {greal.tolist()} closed form {wreal.tolist()}', **det)
+                if not warned and wreal.any(): ctx.nontrivial = True
+                continue
+            bound = tol / (1 - rho) + 1e-9 * (1 + wreal.max(initial=0.0))
+        if warned:
+            ctx.require(bool(np.all(greal <= wreal * (1 + 1e-9) + 1e-12)), 'above-lfp', f'[{cfg}] warned; got {greal.tolist()} lfp {wreal.tolist()}', **det)
+        else:
+            err = float(np.max(np.abs(greal - wreal))) if greal.size else 0.0
+            ctx.require(err <= bound, 'lfp-error-exceeds-bound', f'[{cfg}] no warning, |result-x*|={err:.3e} > bound {bound:.3e}; got {greal.tolist()} x*={wreal.tolist()}', **det)
+            ctx.require(bool(np.all((wreal != 0) | (greal == 0))), 'zero-pattern', f'[{cfg}] got {greal.tolist()} x*={wreal.tolist()}', **det)
+
+
 def check(case, ctx):
     import torch, fggs
+    if case.get('kind') == 'geometric':
+        return check_geometric(case, ctx)
     spec = case['spec']
     feats = gen_fgg.spec_features(spec)
     if 'recursive' not in feats:
@@ -92,6 +207,7 @@ def check(case, ctx):
         return
     ctx.label(*feats)
     if has_weight_one_cycle(spec): ctx.label('weight-one-cycle')
+    if 'S0' in spec['nonterminals']: ctx.label('diamond')
     comps, g = gen_fgg.sccs(spec)
     if len([c for c in comps if len(c) > 1 or next(iter(c)) in g[next(iter(c))]]) >= 2: ctx.label('two-cyclic-sccs')
     linexp = linear_expectation(spec)
